@@ -594,7 +594,7 @@ pub enum Case {
     /// every thread hammers one call (cheap queries many times, verifications a few times)
     Burst { calls: Vec<RCall>, fresh: bool },
     Lazy { lists: Vec<Vec<(RCall, u16)>> },
-    Recreate { api: Api, depth: usize, cfg: StoreCfg, n: u8, writes: Vec<(u16, u8)> },
+    Recreate { api: Api, depth: usize, cfg: StoreCfg, n: u8, writes: Vec<(u16, u8)>, #[serde(default)] handoff_ms: u16 },
 }
 
 fn rcall() -> BoxedStrategy<RCall> {
@@ -644,7 +644,7 @@ impl Property for C18 {
     }
     fn rule(&self) -> String {
         "fixed part: W generated sequential workloads (batch updates on the persistent tree at depth 10/20, 2 witnesses -> full witness, witness-map H vector, Groth16 proof with fixed blinding, proof values; 2 public-API prove+verify; 12-24 read-only calls incl. verdicts on golden and tampered messages), each run in 4 child processes with RAYON_NUM_THREADS = 1, 2, 4, 16: transcripts identical line by line. \
-         generated part: Shared = one shared instance (the long-lived one, or one created for the case and first touched by the concurrent callers), 2/4/16 threads released by a barrier, each with a generated list of read-only calls (verify*, recover, hash, poseidon_hash, seeded key derivation, unseeded key generation shape, root/leaf/proof/subtree-root/empty-list/metadata queries) and spin/yield jitter, every result equal to the same call made sequentially (one caller at a time, on the reference instance); Burst = 2/4/8/16 threads each repeating one call (membership-path queries 1500x quick / 6000x thorough, verifications a few times) against its sequential result; Lazy = the same in a fresh child process where every thread first builds its own instance (concurrent first touch of the lazily initialised globals); Recreate = persistent instance dropped and re-created n times at once (trait / RLN API, storage configurations), each re-creation must return Ok with the persisted state within 60 s (else exit 2). \
+         generated part: Shared = one shared instance (the long-lived one, or one created for the case and first touched by the concurrent callers), 2/4/16 threads released by a barrier, each with a generated list of read-only calls (verify*, recover, hash, poseidon_hash, seeded key derivation, unseeded key generation shape, root/leaf/proof/subtree-root/empty-list/metadata queries) and spin/yield jitter, every result equal to the same call made sequentially (one caller at a time, on the reference instance); Burst = 2/4/8/16 threads each repeating one call (membership-path queries 1500x quick / 6000x thorough, verifications a few times) against its sequential result; Lazy = the same in a fresh child process where every thread first builds its own instance (concurrent first touch of the lazily initialised globals); Recreate = persistent instance dropped and re-created n times at once (trait / RLN API, storage configurations), each re-creation must return Ok with the persisted state within 60 s (else exit 2); hand-over variant: the new instance is constructed by another thread while the old one is released 1..1000 ms later. \
          evaluations = compared results. non-trivial = run with >= 4 threads in which >= 2 threads issued the same call kind at the same step, or a Recreate case with >= 10 re-creations; distinct by case content. Schedules are sampled, not enumerated.".into()
     }
     fn assumptions(&self) -> Vec<String> {
@@ -698,8 +698,11 @@ impl Property for C18 {
             },
             proptest::collection::vec((any::<u16>(), 1u8..POOL as u8), 1..4),
         )
-            .prop_map(|(api, depth, cfg, n, writes)| Case::Recreate { api, depth, cfg, n, writes });
+            .prop_map(|(api, depth, cfg, n, writes)| Case::Recreate { api, depth, cfg, n, writes, handoff_ms: 0 });
+        let rec_handoff = (prop_oneof![3 => Just(Api::Trait), 1 => Just(Api::Rln)], 3usize..=6, proptest::collection::vec((any::<u16>(), 1u8..POOL as u8), 1..3), prop_oneof![1u16..120, 120u16..1000])
+            .prop_map(|(api, depth, writes, handoff_ms)| Case::Recreate { api, depth, cfg: StoreCfg { cache: 0, flush_ms: 0, low_space: false, compression: false, path_style: 0 }, n: 2, writes, handoff_ms });
         prop_oneof![
+            1 => rec_handoff,
             8 => (lists(8), any::<bool>()).prop_map(|(lists, fresh)| Case::Shared { lists, fresh }),
             3 => (prop_oneof![Just(2usize), Just(4usize), Just(8usize), Just(16usize)], any::<bool>())
                 .prop_flat_map(|(n, fresh)| (proptest::collection::vec(prop_oneof![3 => any::<u32>().prop_map(RCall::GetProof), 1 => rcall()], n..=n), Just(fresh)))
@@ -839,7 +842,7 @@ impl Property for C18 {
                 }
                 o.nontrivial = concurrent_same_kind(lists);
             }
-            Case::Recreate { api, depth, cfg, n, writes } => {
+            Case::Recreate { api, depth, cfg, n, writes, handoff_ms } => {
                 o.label(format!("recreate/{api:?}"));
                 let base = ctx.tmpdir.join(format!("c18-rec-{:016x}-{:?}", case_hash(case), std::thread::current().id()));
                 let _ = std::fs::remove_dir_all(&base);
@@ -865,6 +868,46 @@ impl Property for C18 {
                     if !matches!(b.apply(&ROp::Flush), Some(Ok(Ok(())))) {
                         vfail!(o, "round {round}: flush failed");
                         break;
+                    }
+                    if *handoff_ms > 0 {
+                        // hand-over: the new instance is being constructed (by another thread) while the
+                        // old one is released only `handoff_ms` later — the storage lock is still held
+                        // when the re-creation starts
+                        o.label("recreate/hand-over");
+                        let t0 = Instant::now();
+                        let res: Result<(), String> = std::thread::scope(|sc| {
+                            let (c16ref, baseref, mref) = (&c16case, &base, &m);
+                            let h = sc.spawn(move || -> Result<(), String> {
+                                let mut st2 = Store::new(c16ref, baseref);
+                                match st2.open() {
+                                    Ok(Ok(())) => {}
+                                    Ok(Err(e)) => return Err(format!("re-creating the instance while the previous one is being released failed: {e}")),
+                                    Err(p) => return Err(format!("re-creating the instance panicked: {}", p.0)),
+                                }
+                                let focus = super::trees::Focus { leaves: true, roots: true, mark: true, flags: false, metadata: false };
+                                let r = super::trees::compare(st2.bm(), mref, focus, &[]).map(|_| ()).map_err(|e| format!("the re-created instance does not hold the persisted state: {e}"));
+                                st2.close();
+                                r
+                            });
+                            std::thread::sleep(Duration::from_millis(*handoff_ms as u64));
+                            st.close();
+                            h.join().unwrap_or_else(|_| Err("the re-creating thread panicked".into()))
+                        });
+                        if t0.elapsed() > Duration::from_secs(60) {
+                            println!("INCONCLUSIVE property=C18 re-creating an instance during a hand-over took {:?}", t0.elapsed());
+                            std::process::exit(2);
+                        }
+                        if let Err(e) = res {
+                            vfail!(o, "round {round} (old instance released {handoff_ms} ms after the re-creation started): {e}");
+                            break;
+                        }
+                        o.evals += 1;
+                        // continue with a freshly opened instance on this thread
+                        if !matches!(st.open(), Ok(Ok(()))) {
+                            vfail!(o, "round {round}: reopening after the hand-over failed");
+                            break;
+                        }
+                        continue;
                     }
                     st.close();
                     let t0 = Instant::now();
@@ -894,7 +937,7 @@ impl Property for C18 {
                 }
                 st.close();
                 let _ = std::fs::remove_dir_all(&base);
-                o.nontrivial = *n >= 10;
+                o.nontrivial = *n >= 10 || *handoff_ms > 0;
             }
         }
         o
